@@ -51,6 +51,17 @@ Theorem C08_accepted_is_valid_partial :
     children_ok T check_fn (p_version st) ty [] [] content /\ shortname_ok T (p_version st) ty content.
 Proof. exact load_strict_valid. Qed.
 
+(* [U] the same for a lenient load without warnings *)
+Theorem C08_lenient_clean_is_valid_partial :
+  forall (T : tables) (tab_el tab_at tab_en : nametab) (check_fn : N -> list N -> res bool)
+         (float_parse : list N -> option N) (bs : list N) (t : etree) (st : pstate),
+  load false T tab_el tab_at tab_en check_fn float_parse bs = Val (Ret t st) -> p_warnings st = [] ->
+  exists v401 name ty attrs content comment,
+    version_of_ident "Autosar_4_0_1" = Some v401 /\ t = ENode name ty attrs content comment /\
+    attrs_valid T check_fn v401 ty attrs /\
+    children_ok T check_fn (p_version st) ty [] [] content /\ shortname_ok T (p_version st) ty content.
+Proof. exact load_lenient_clean_valid. Qed.
+
 (* [U] data after the root element is never accepted by strict loading: when it returns, the lexer is at the end *)
 Theorem C08_no_trailing_data :
   forall (T : tables) (tab_el tab_at tab_en : nametab) (check_fn : N -> list N -> res bool)
